@@ -367,11 +367,17 @@ def check_keywords(repo, rep):
                                               '\u00e9t\u00e9')]
         for w, tname in kws.items():
             cases.append((w, tname, k2v.get(tname, w)))
-        for text, want_type, want_value in cases:
+        contexts = (('', ''), ('$.', ''), ('$?.', ' + 1'), ('1 ', ' 2'),
+                    ('$ . ', ''), ('f(', ')'))
+        for (text, want_type, want_value), (pre, post) in [
+                (c, x) for c in cases for x in contexts]:
+            lexer = absint.Obj('lexer', lexdata=pre + text + post,
+                               lexpos=len(pre) + len(text), lineno=1)
             t = absint.Obj('token', value=text, type='KEYWORD_STRING',
-                           lexpos=0, lineno=1)
+                           lexpos=len(pre), lineno=1, lexer=lexer)
             slf = absint.Obj('self', _operators_table=dict(table),
-                             keywords=dict(kws), keyword_to_val=dict(k2v))
+                             keywords=dict(kws), keyword_to_val=dict(k2v),
+                             __class__=lx)
             it = absint.Interp(repo, mod)
             args = {tok: t}
             if len(fi.params()) > 1:
@@ -388,9 +394,10 @@ def check_keywords(repo, rep):
             if not (out[0] == 'return' and out[1] is t and
                     gt == want_type and same_v):
                 ok = False
-                why = 'the word %r becomes a %s token with value %r ' \
-                      '(expected %s / %r)' % (text, gt, gv, want_type,
-                                              want_value)
+                why = 'the word %r (written as %r) becomes a %s token ' \
+                      'with value %r (expected %s / %r whatever surrounds ' \
+                      'it)' % (text, pre + text + post, gt, gv, want_type,
+                               want_value)
                 if gt == 'KEYWORD_STRING' and not same_v:
                     extra.append('%r -> %r' % (text, gv))
     rep.ob('R16d', fi.key + '/keeps-its-text', not extra,
@@ -558,6 +565,12 @@ def run(repo, rep):
     check_keywords(repo, rep)
     check_numbers(repo, rep)
     check_constant_nodes(repo, rep)
+    # a literal can only denote the characters it spells if the lexer sees
+    # the caller's text itself
+    from sa.rules import c03
+    rep.rule('R03g', 'see C03: the text handed to ply is the text the '
+             'caller passed (no normalisation / folding before lexing)')
+    c03.check_input_is_the_text(repo, rep)
     n = check_no_empty_tokens(repo, rep)
     rep.count(token_rules=n)
     rep.floor('token rules with a regex', n, 7)
